@@ -2,6 +2,7 @@
   C14 — Unknown fields are kept exactly, or dropped everywhere when asked.
 -/
 import Pulsar.Proofs.Decode
+import Pulsar.Reflect
 namespace Pulsar
 
 /-- A record whose number is not a field of the message (and that `runtime.Skip` accepts: in particular
@@ -41,6 +42,27 @@ theorem C14_discard (S : Schema) (fuel : Nat) (depth : Int) (i : Nat) (bs : Byte
        | .panic => .panic) :=
   implUnmarshalClosure_discard S fuel depth i bs
 
+
+/-! ### GetUnknown / SetUnknown read and replace exactly that set -/
+
+/-- `SetUnknown(b)` on a (non-nil) message replaces the unknown set by `b` and changes no field. -/
+theorem C14_setUnknown_replaces (S : Schema) (i : Nat) (slots : List Val) (u b : Bytes) :
+    Reflect.write S i (.msg slots u) (.setu b) = (.msg slots b, .ok) := rfl
+
+/-- `GetUnknown` reads exactly the set (and `nil` on a nil receiver). -/
+theorem C14_getUnknown_reads (S : Schema) (i : Nat) (s : Val) :
+    Reflect.read S i s .getu = .unk s.unknown := rfl
+
+/-- … so what `GetUnknown` returns after `SetUnknown(b)` is `b`, whatever the set was before, and the
+    reference machine does the same. -/
+theorem C14_get_after_set (S : Schema) (i : Nat) (slots : List Val) (u b : Bytes) :
+    Reflect.read S i (Reflect.write S i (.msg slots u) (.setu b)).1 .getu = .unk b ∧
+    SpecReflect.read S i (SpecReflect.write S i (.msg slots u) (.setu b)).1 .getu = .unk b := ⟨rfl, rfl⟩
+
+/-- a nil receiver: `GetUnknown` is empty, `SetUnknown` panics (it is never silently dropped). -/
+theorem C14_unknown_on_nil (S : Schema) (i : Nat) (b : Bytes) :
+    Reflect.read S i .none .getu = .unk [] ∧ (Reflect.write S i .none (.setu b)).2 = .panic := ⟨rfl, rfl⟩
+
 /-! ### Non-vacuity -/
 
 /-- `message M { int32 a = 1; }` -/
@@ -78,3 +100,7 @@ example : (Val.msg [.bits 5] [0xaa]).unknown = [0xaa] :=
 #print axioms C14_discard
 
 end Pulsar
+#print axioms Pulsar.C14_setUnknown_replaces
+#print axioms Pulsar.C14_getUnknown_reads
+#print axioms Pulsar.C14_get_after_set
+#print axioms Pulsar.C14_unknown_on_nil
